@@ -4,6 +4,7 @@ import ast
 import sympy as sp
 
 from ..ot import describe, ev as ot_ev, order_only, weak_orderings
+from ..astutil import call_name
 from ..report import RuleDef
 from ..src import AnalysisError
 from ..vg import (App, BoolT, ClassRef, Cmp, Const, Evaluator, Ite, Obj, Tup,
@@ -311,7 +312,47 @@ def r8(ctx):
     from .c01 import _DtypeLint
     m = ctx.model
     ci = m.cls('RegionBoundingBox')
-    lint = _DtypeLint(ctx, m, coord_attrs=FIELDS)
+    # (a) the constructor: numpy integer scalars are accepted as limits; unless they are converted to Python integers
+    # there, every later operation runs in their fixed width: `-ymin` of an unsigned limit wraps around (the window in
+    # mask coordinates becomes slice(254, 3)), `iymax - iymin` of int8 limits overflows (shape (2, -56))
+    init = method_or_fail(ctx, ci, '__init__')
+    params = [a.arg for a in init.node.args.args][1:]
+    conv = {}            # local name -> parameter it is the Python-int conversion of
+
+    def converted(e):
+        if isinstance(e, ast.Name) and e.id in conv:
+            return conv[e.id]
+        if isinstance(e, ast.Call) and not e.keywords and len(e.args) == 1 and isinstance(e.args[0], ast.Name) \
+                and (call_name(e) or '') in ('int', 'operator.index', 'index'):
+            return e.args[0].id
+        return None
+    stored = {}
+    for st in ast.walk(init.node):
+        if isinstance(st, ast.Assign) and len(st.targets) == 1:
+            t, v = st.targets[0], st.value
+            pairs = list(zip(t.elts, v.elts)) if isinstance(t, ast.Tuple) and isinstance(v, ast.Tuple) and \
+                len(t.elts) == len(v.elts) else [(t, v)]
+            for tt, vv in pairs:
+                c = converted(vv)
+                if isinstance(tt, ast.Name) and c is not None:
+                    conv[tt.id] = c
+                if isinstance(tt, ast.Attribute) and isinstance(tt.value, ast.Name) and tt.value.id == 'self' \
+                        and tt.attr in FIELDS:
+                    stored[tt.attr] = (c, st)
+    ctx.need(set(stored) == set(FIELDS), 'RegionBoundingBox.__init__', f'stores of the four limits not found: {sorted(stored)}')
+    raw = sorted(k for k, (c, st) in stored.items() if c is None)
+    if raw:
+        ctx.bad('RegionBoundingBox.__init__', 'fixed-width-limits',
+                f'the limits {raw} are stored as given: a numpy integer scalar (accepted by the type check) keeps its fixed '
+                'width, so RegionBoundingBox(np.uint8(2), np.uint8(5), np.uint8(3), np.uint8(6)).get_overlap_slices((10, 10)) '
+                'has the mask window slice(253, 3) (`-ymin` wraps around) and every RegionMask method raises, and '
+                'RegionBoundingBox(np.int8(-100), np.int8(100), np.int8(0), np.int8(2)).shape is (2, -56); the limits must be '
+                'converted to Python integers (int(...)) when they are stored', init.loc(stored[raw[0]][1]))
+        return
+    ctx.ok('RegionBoundingBox.__init__', 'the four limits are stored as Python integers (int(...)): the arithmetic cannot wrap')
+    # (b) with Python-int limits no method can overflow; the dataflow below stays as a guard for limits that reach a method
+    # by another way (it treats the stored limits as exact)
+    lint = _DtypeLint(ctx, m, coord_attrs=())
     n = 0
     for name, f in sorted(ci.methods.items()):
         base = name.split('.')[0]
@@ -338,5 +379,5 @@ RULES = [
     RuleDef('R4', 'from_float rounding', r4, 2),
     RuleDef('R5', 'overlap slices: windows and (None, None) condition', r5, 2),
     RuleDef('R6', 'constructor guards; __eq__ over four corners', r6, 2),
-    RuleDef('R8', 'fixed-width integer limits: no product/power of limit-derived values in the box arithmetic', r8, 8),
+    RuleDef('R8', 'limits are stored as Python integers (numpy integer scalars are converted), so the box arithmetic cannot wrap', r8, 1),
 ]
